@@ -92,3 +92,10 @@ shape("BlackmanWaveform", bases=("Waveform",), _area="real")
 shape("KaiserWaveform", bases=("Waveform",), _area="real", _beta="real")
 shape("InterpolatedWaveform", bases=("Waveform",))
 declare_heap_fields()
+
+# --- sampler (C06) ---------------------------------------------------------------
+shape("ChannelSamples", amp=("list", "real"), det=("list", "real"), phase=("list", "real"), duration="int",
+      eom_blocks=("list", ("ref", "_EOMSettings")), _centered_phase=("opt", ("list", "real")),
+      slots="opaque", eom_start_buffers="opaque", eom_end_buffers="opaque", target_time_slots="opaque")
+SHAPES["ChannelSamples"].derived = {"duration"}
+declare_heap_fields()
